@@ -772,3 +772,113 @@ Theorem C05_gen_psort_recurse : forall lo n (dir : bool), zn lo + zn n < B62 ->
   (zn lo, zn (lo + n / 2), b2z (negb dir), zn (lo + n / 2), zn (lo + n / 2 + (n - n / 2)), b2z dir, zn lo, zn (lo + n), b2z dir).
 Proof. exact gen_psort_recurse. Qed.
 Print Assumptions C05_gen_psort_recurse.
+
+(* ---- the comparison function as an ARBITRARY int (C05/PsortIntCmp.v) and the wrappers handed to qsort (generated) ---------------
+   `compar` returns any negative / zero / any positive integer (INT_MIN, INT_MAX included); only its sign may be used.
+   cmp_valid c: the sign is antisymmetric and "<= 0" is transitive (a consistent comparison function in the sense of the C standard);
+   gt_cmp c a b = (0 <? c a b) (the swap test), le_cmp c a b = (c a b <=? 0), dir_cmp c d = c (d = true) / c with the arguments
+   swapped (d = false); qsort_contract qs: for a consistent function the result of qs is a permutation whose adjacent elements
+   a, b have c a b <= 0. *)
+From ScV Require Import C05.PsortIntCmp.
+
+(* swapping the arguments keeps a comparison function consistent, whatever integers it returns *)
+Theorem C05_swapped_comparator_valid : forall (A : Type) (c : A -> A -> Z) (d : bool), cmp_valid A c -> cmp_valid A (dir_cmp A c d).
+Proof. exact dir_cmp_valid. Qed.
+Print Assumptions C05_swapped_comparator_valid.
+
+(* ... negating the result does not: a consistent function that reports "less" by INT_MIN; `-1 * compar (a, b)` evaluated in int
+   is INT_MIN again, the opposite sign of the swapped call, and the negated function is not consistent *)
+Theorem C05_negation_is_not_argument_swap :
+  cmp_valid Z cmp_min /\ s32 (-1 * cmp_min 0 1) = INT_MIN /\ dir_cmp Z cmp_min false 0 1 = 1 /\
+  ~ cmp_valid Z (fun a b => s32 (-1 * cmp_min a b)).
+Proof. exact neg_is_not_swap. Qed.
+Print Assumptions C05_negation_is_not_argument_swap.
+
+(* from the contract of libc's qsort and ANY functions w d that have pointwise the sign of the user's function (d = true) / of the
+   user's function with swapped arguments (d = false), the contract of the model's local sort (hypotheses of C05_sorted) follows *)
+Theorem C05_local_sort_contract : forall (A : Type) (c : A -> A -> Z), cmp_valid A c ->
+  forall qs, qsort_contract A qs -> forall w : bool -> A -> A -> Z, (forall d a b, Z.sgn (w d a b) = Z.sgn (dir_cmp A c d a b)) ->
+  (forall d l, Permutation (qs (w d) l) l) /\
+  (forall l, Sorted (fun a b => le_cmp A c a b = true) (qs (w true) l)) /\
+  (forall l, Sorted (fun a b => le_cmp A c b a = true) (qs (w false) l)).
+Proof. exact local_sort_contract. Qed.
+Print Assumptions C05_local_sort_contract.
+
+(* SORTEDNESS / PERMUTATION / COUNTS for every consistent int-valued comparison function (no -1/0/1 normalisation): sequential
+   network ... *)
+Theorem C05_sorted_int_comparator : forall (A : Type) (c : A -> A -> Z), cmp_valid A c ->
+  forall qs, qsort_contract A qs -> forall w : bool -> A -> A -> Z, (forall d a b, Z.sgn (w d a b) = Z.sgn (dir_cmp A c d a b)) ->
+  forall counts xs, map (@length A) xs = counts ->
+  StronglySorted (fun a b => c a b <= 0) (concat (psort A (gt_cmp A c) (fun d => qs (w d)) counts xs)) /\
+  Permutation (concat (psort A (gt_cmp A c) (fun d => qs (w d)) counts xs)) (concat xs) /\
+  map (@length A) (psort A (gt_cmp A c) (fun d => qs (w d)) counts xs) = counts.
+Proof. exact psort_correct_int. Qed.
+Print Assumptions C05_sorted_int_comparator.
+
+(* ... no pair i < j of the output with compar (out[i], out[j]) > 0 ... *)
+Theorem C05_no_inversion_int_comparator : forall (A : Type) (c : A -> A -> Z), cmp_valid A c ->
+  forall qs, qsort_contract A qs -> forall w : bool -> A -> A -> Z, (forall d a b, Z.sgn (w d a b) = Z.sgn (dir_cmp A c d a b)) ->
+  forall counts xs, map (@length A) xs = counts ->
+  forall i j a b, (i < j)%nat -> nth_error (concat (psort A (gt_cmp A c) (fun d => qs (w d)) counts xs)) i = Some a ->
+    nth_error (concat (psort A (gt_cmp A c) (fun d => qs (w d)) counts xs)) j = Some b -> ~ (0 < c a b).
+Proof. exact psort_no_inversion_int. Qed.
+Print Assumptions C05_no_inversion_int_comparator.
+
+(* ... and the distributed round semantics *)
+Theorem C05_dist_sorted_int_comparator : forall (A : Type) (c : A -> A -> Z), cmp_valid A c ->
+  forall qs, qsort_contract A qs -> forall w : bool -> A -> A -> Z, (forall d a b, Z.sgn (w d a b) = Z.sgn (dir_cmp A c d a b)) ->
+  forall counts xs, map (@length A) xs = counts ->
+  StronglySorted (fun a b => c a b <= 0) (concat (dist_psort A (gt_cmp A c) (fun d => qs (w d)) counts xs)) /\
+  Permutation (concat (dist_psort A (gt_cmp A c) (fun d => qs (w d)) counts xs)) (concat xs) /\
+  map (@length A) (dist_psort A (gt_cmp A c) (fun d => qs (w d)) counts xs) = counts.
+Proof. exact dist_psort_correct_int. Qed.
+Print Assumptions C05_dist_sorted_int_comparator.
+
+(* the qsort contract is satisfiable: insertion sort driven by the int comparison function *)
+Theorem C05_qsort_contract_satisfiable : forall A : Type, qsort_contract A (cisort A).
+Proof. exact cisort_contract. Qed.
+Print Assumptions C05_qsort_contract_satisfiable.
+
+(* T1: the function sc_psort_bitonic hands to qsort_r (GNU: `dir ? sc_compare_r : sc_icompare_r`, called (e1, e2, thunk)) *)
+Theorem C05_gen_compare_gnu : forall (compar : Z -> Z -> Z) (dir : bool) e1 e2 thunk,
+  psort_local_cmp_gnu compar (b2z dir) e1 e2 thunk = dir_cmp Z compar dir e1 e2.
+Proof. exact gen_compare_gnu. Qed.
+Print Assumptions C05_gen_compare_gnu.
+
+(* ... BSD qsort_r (called (thunk, e1, e2)) *)
+Theorem C05_gen_compare_bsd : forall (compar : Z -> Z -> Z) (dir : bool) e1 e2 thunk,
+  psort_local_cmp_bsd compar (b2z dir) e1 e2 thunk = dir_cmp Z compar dir e1 e2.
+Proof. exact gen_compare_bsd. Qed.
+Print Assumptions C05_gen_compare_bsd.
+
+(* ... plain qsort (`dir ? sc_compare : sc_icompare`, sc_compare the static copy of the user's function pointer) *)
+Theorem C05_gen_compare_plain : forall (compar : Z -> Z -> Z) (dir : bool) e1 e2 thunk,
+  psort_local_cmp_plain compar (b2z dir) e1 e2 thunk = dir_cmp Z compar dir e1 e2.
+Proof. exact gen_compare_plain. Qed.
+Print Assumptions C05_gen_compare_plain.
+
+(* ... for every int value of `dir` (non-zero = ascending) *)
+Theorem C05_gen_compare_any_dir : forall (compar : Z -> Z -> Z) dir e1 e2 thunk,
+  psort_local_cmp_gnu compar dir e1 e2 thunk = dir_cmp Z compar (z2b dir) e1 e2 /\
+  psort_local_cmp_bsd compar dir e1 e2 thunk = dir_cmp Z compar (z2b dir) e1 e2 /\
+  psort_local_cmp_plain compar dir e1 e2 thunk = dir_cmp Z compar (z2b dir) e1 e2.
+Proof. exact gen_compare_any_dir. Qed.
+Print Assumptions C05_gen_compare_any_dir.
+
+(* base (byte offset in the local array), number and size of the elements of the local sort, all three variants *)
+Theorem C05_gen_local_sort_args : forall lo my_lo n size, (my_lo <= lo)%nat -> zn lo < B62 -> 0 <= size -> zn (lo - my_lo) * size < B62 ->
+  psort_local_start_gnu (zn lo) (zn my_lo) size = zn (lo - my_lo) * size /\ psort_local_n_gnu n = n /\ psort_local_size_gnu size = size /\
+  psort_local_start_bsd (zn lo) (zn my_lo) size = zn (lo - my_lo) * size /\ psort_local_n_bsd n = n /\ psort_local_size_bsd size = size /\
+  psort_local_start_plain (zn lo) (zn my_lo) size = zn (lo - my_lo) * size /\ psort_local_n_plain n = n /\ psort_local_size_plain size = size.
+Proof. exact gen_local_sort_args. Qed.
+Print Assumptions C05_gen_local_sort_args.
+
+(* composition: the GENERATED comparison functions handed to any qsort with the contract of the C standard, a consistent user
+   function over the element addresses with arbitrary integer results: sorted, permutation, counts - in all three variants *)
+Theorem C05_gen_local_sort_sorted : forall (compar : Z -> Z -> Z), cmp_valid Z compar ->
+  forall qs, qsort_contract Z qs -> forall thunk counts xs, map (@length Z) xs = counts ->
+  sorted_perm_counts compar (gen_sort_gnu compar qs thunk) counts xs /\
+  sorted_perm_counts compar (gen_sort_bsd compar qs thunk) counts xs /\
+  sorted_perm_counts compar (gen_sort_plain compar qs thunk) counts xs.
+Proof. exact gen_sorted. Qed.
+Print Assumptions C05_gen_local_sort_sorted.
